@@ -7,7 +7,7 @@ cd /tmp/mut/$id || exit 2
 export GOFLAGS=-mod=mod GOPROXY=off
 git checkout -q -- . ; rm -f $pkg/zz_demo_test.go
 git apply out/patch.diff || exit 2
-echo "--- suite with patch"; go build ./... && go test -vet=off -count=1 ./... 2>&1 | grep -v "no test files" | grep -v "^ok" | head -5; echo "(suite done)"
+echo "--- suite with patch"; go build $(go list ./... | grep -v /out$) && go test -vet=off -count=1 $(go list ./... | grep -v /out$) 2>&1 | grep -v "no test files" | grep -v "^ok" | head -5; echo "(suite done)"
 cp out/demo_test.go $pkg/zz_demo_test.go
 echo "--- demo WITH patch (expect FAIL)"; timeout 300 go test -vet=off -count=1 "$@" -run "$run" ./$pkg/ 2>&1 | tail -3
 git apply -R out/patch.diff
